@@ -30,6 +30,10 @@ type Scenario struct {
 	// no longer rename anything: the model is that of the early settings (plus the late anonymous imports,
 	// preambles and NoFormat).
 	Split int `json:"split,omitempty"`
+	// Preview (staged scenarios only): before the File's first render the last Preview body statements are
+	// rendered as fragments with RenderWithFile(w, file), last one first — the File meets the paths in another
+	// order than its body has them.
+	Preview int `json:"preview,omitempty"`
 }
 
 // StagedModel is the model of a staged scenario (see Scenario.Split).
@@ -60,6 +64,10 @@ func (sc *Scenario) StagedModel() *Model {
 	return m
 }
 
+type failingWriter struct{}
+
+func (failingWriter) Write(p []byte) (int, error) { return 0, fmt.Errorf("writer fails") }
+
 // RenderStaged performs the staged use described at Scenario.Split.
 func (sc *Scenario) RenderStaged() ([]byte, error) {
 	k := sc.Split - 1
@@ -70,6 +78,16 @@ func (sc *Scenario) RenderStaged() ([]byte, error) {
 	late := early.Ops[k:]
 	early.Ops = early.Ops[:k]
 	f := recipe.BuildFile(early)
+	for i, k := len(early.Body)-1, 0; i >= 0 && k < sc.Preview; i, k = i-1, k+1 {
+		if n := early.Body[i]; n != nil && n.Kind == recipe.KStmt {
+			func() {
+				defer func() { _ = recover() }()
+				_ = (&recipe.Builder{}).Stmt(n).RenderWithFile(&bytes.Buffer{}, f)
+			}()
+		}
+	}
+	// the first use of the File: a render into a writer that fails (nothing of it may stick), then a good one
+	_ = f.Render(failingWriter{})
 	_ = f.Render(&bytes.Buffer{})
 	for i := range late {
 		recipe.ApplyFileOp(f, &late[i])
